@@ -1,0 +1,27 @@
+//go:build verif
+
+// Contracts for package collector, checked by /verif/bin/govc (comment-only file).
+package collector
+
+//@ fileprops C16
+
+// Every hit is fed to the aggregation bucket, on every path that does not fail, before and
+// independently of the paging key, the "lowest match outside the results" shortcut and the store.
+//@ func TopNCollector.collectSingle
+//@   requires hc != nil && d != nil
+//@   ensures [fed-on-every-path] result == nil ==> (fedCount == old(fedCount) + 1 && lastFed == d)
+//@   ensures [at-most-once] fedCount <= old(fedCount) + 1
+
+// Collect: when it succeeds, the bucket has been fed exactly the hits the searcher returned.
+//@ func TopNCollector.Collect
+//@   requires hc != nil
+//@   exit [all-hits-fed] (result1 == nil && result0 != nil) ==> fedCount - old(fedCount) == hitsSeen - old(hitsSeen)
+//@   loop 1
+//@     invariant fedCount == old(fedCount) + hitNumber
+//@     invariant hitsSeen == old(hitsSeen) + hitNumber + ite(next != nil && err == nil, 1, 0)
+
+// the all-hits iterator: a hit is handed out only after it was fed to the bucket; nothing else is fed
+//@ func AllIterator.Next
+//@   requires a != nil
+//@   ensures [hit-returned-is-fed] (next != nil && err == nil) ==> (fedCount == old(fedCount) + 1 && lastFed == next)
+//@   ensures [nothing-fed-otherwise] !(next != nil && err == nil) ==> fedCount == old(fedCount)
